@@ -3,7 +3,7 @@
 pub mod attributes;
 mod fields;
 
-use std::{fmt, io};
+use std::{borrow::Cow, fmt, io, iter};
 
 use bstr::{BStr, ByteSlice};
 use noodles_core::Position;
@@ -122,7 +122,45 @@ impl gff::feature::Record for Record<'_> {
     }
 
     fn attributes(&self) -> Box<dyn gff::feature::record::Attributes + '_> {
-        Box::new(self.attributes().unwrap()) // TODO
+        match self.attributes() {
+            Ok(attributes) => Box::new(attributes),
+            Err(e) => Box::new(InvalidAttributes(e)),
+        }
+    }
+}
+
+// Attributes that failed to parse. The error is reported by every lookup and by the iterator.
+struct InvalidAttributes(io::Error);
+
+impl InvalidAttributes {
+    fn error(&self) -> io::Error {
+        io::Error::new(self.0.kind(), self.0.to_string())
+    }
+}
+
+impl gff::feature::record::Attributes for InvalidAttributes {
+    fn is_empty(&self) -> bool {
+        false
+    }
+
+    fn get(
+        &self,
+        _: &[u8],
+    ) -> Option<io::Result<gff::feature::record::attributes::field::Value<'_>>> {
+        Some(Err(self.error()))
+    }
+
+    fn iter(
+        &self,
+    ) -> Box<
+        dyn Iterator<
+                Item = io::Result<(
+                    Cow<'_, BStr>,
+                    gff::feature::record::attributes::field::Value<'_>,
+                )>,
+            > + '_,
+    > {
+        Box::new(iter::once(Err(self.error())))
     }
 }
 
